@@ -199,8 +199,15 @@ class LF:
         # carve-outs of the obligations that use it), so two schemas are equal iff they list the same names in the same order
         return _Schema(tuple(self.cols))
 
-    def cast(self, *a, **kw):
-        raise Unsupported("cast() of a model frame (the model carries no column types)")
+    def cast(self, dtypes, *a, **kw):
+        # all model columns have one type (see collect_schema), so a cast of named columns changes no value; polars rejects
+        # names that are not columns of the frame
+        if not isinstance(dtypes, dict):
+            raise Unsupported("cast(<single dtype>) of a model frame")
+        for name in dtypes:
+            if name not in self.cols:
+                raise PolarsError(f"ColumnNotFoundError: cast of {name!r}: not in frame")
+        return LF(self.cols, self.hist)
 
 
 class _Schema:
